@@ -36,6 +36,9 @@ br_ecdsa_i31_sign_asn1(const br_ec_impl *impl,
 	size_t sig_len;
 
 	sig_len = br_ecdsa_i31_sign_raw(impl, hf, hash_value, sk, rsig);
+#ifdef BR_VERIF
+	BR_VERIF_PUBLIC(rsig, sizeof rsig);
+#endif
 	if (sig_len == 0) {
 		return 0;
 	}
